@@ -40,6 +40,7 @@ const (
 	HonourCtx
 	BlockCtx
 	GateAll // every handler waits until Gate handlers have started: forces full pipelining depth
+	DepOn0  // request 0 returns only once cancelled; every other handler waits until request 0's handler has returned
 )
 
 // reqID extracts the identity the harness put into a request.
@@ -57,6 +58,16 @@ func reqID(m p9p.Message) int {
 		return int(v.Fid)
 	case p9p.MessageTwalk:
 		return int(v.Fid)
+	case p9p.MessageTcreate:
+		return int(v.Fid)
+	case p9p.MessageTremove:
+		return int(v.Fid)
+	case p9p.MessageTwstat:
+		return int(v.Fid)
+	case p9p.MessageTattach:
+		return int(v.Fid)
+	case p9p.MessageTauth:
+		return int(v.Afid)
 	}
 	return -1
 }
@@ -89,6 +100,16 @@ func resultFor(m p9p.Message) (p9p.Message, error) {
 		return p9p.MessageRwalk{Qids: []p9p.Qid{{Path: uint64(1000 + id)}}}, nil
 	case p9p.MessageTclunk:
 		return p9p.MessageRclunk{}, nil
+	case p9p.MessageTcreate:
+		return p9p.MessageRcreate{IOUnit: uint32(1000 + id)}, nil
+	case p9p.MessageTremove:
+		return p9p.MessageRremove{}, nil
+	case p9p.MessageTwstat:
+		return p9p.MessageRwstat{}, nil
+	case p9p.MessageTattach:
+		return p9p.MessageRattach{Qid: p9p.Qid{Path: uint64(1000 + id)}}, nil
+	case p9p.MessageTauth:
+		return p9p.MessageRauth{Qid: p9p.Qid{Path: uint64(1000 + id)}}, nil
 	}
 	return nil, fmt.Errorf("e%d", id)
 }
@@ -145,6 +166,15 @@ func (h *scriptHandler) Handle(ctx context.Context, msg p9p.Message) (p9p.Messag
 		vsched.WaitFor("handler.gate", vsched.CtxObj, func() bool { return h.started >= h.Gate })
 		mode = IgnoreCtx
 	}
+	if mode == DepOn0 {
+		if id == 0 {
+			mode = BlockCtx
+		} else {
+			// like a clunk queued behind a blocked read on the same fid
+			vsched.WaitFor("handler.dep", vsched.CtxObj, h.zeroReturned)
+			mode = IgnoreCtx
+		}
+	}
 	if mode == BlockCtx && id != 0 {
 		mode = IgnoreCtx // only request 0 blocks until cancelled
 	}
@@ -170,6 +200,19 @@ func (h *scriptHandler) Handle(ctx context.Context, msg p9p.Message) (p9p.Messag
 	}
 	vsched.Logf("handle done id=%d", id)
 	return resultFor(msg)
+}
+
+// zeroReturned: request 0's handler was invoked and has returned (evaluated
+// by the scheduler).
+//
+//go:norace
+func (h *scriptHandler) zeroReturned() bool {
+	for _, inv := range h.Calls {
+		if reqID(inv.Msg) == 0 && inv.Returned {
+			return true
+		}
+	}
+	return false
 }
 
 func (h *scriptHandler) Stop(err error) error {
